@@ -255,6 +255,10 @@ class Gen(object):
                     'UnaryOperationNode', operator=t.choice(['empty', 'not_empty']), operand=self.var(t.choice(hs))))
             return N('UnaryOperationNode', operator='not', operand=sub('bool'))
         if k == 6:
+            ps = [n for n, pt in self.params.items() if pt == 'bool']
+            if ps and t.flag():
+                # a parameter (whose declared type may be a user type) as the left operand of and / or
+                return B(N('ParamAccessNode', variable_name=t.choice(ps), _kw='param'), t.choice(['and', 'or']), sub('bool'))
             return B(sub('bool'), t.choice(['and', 'or']), sub('bool'))
         if k == 7:
             return B(sub('str'), t.choice(['==', '!=']), sub('str'))
@@ -265,7 +269,11 @@ class Gen(object):
                 same = [v for v in insts if env.get(v)['cls'] == env.get(a)['cls']]
                 return B(self.var(a), t.choice(['==', '!=']), self.var(t.choice(same)))
         nt = t.choice(['int', 'int', 'real'])
-        return B(sub(nt), t.choice(['<', '<=', '>', '>=', '==', '!=']), sub(nt))
+        nt2 = nt
+        if t.pick(4) == 0:
+            nt2 = 'real' if nt == 'int' else 'int'        # comparing an integer with a real is a boolean all the same
+            self.features.add('mixed-comparison')
+        return B(sub(nt), t.choice(['<', '<=', '>', '>=', '==', '!=']), sub(nt2))
 
     # -- statements --------------------------------------------------------------------------------------------
     def body(self):
@@ -314,6 +322,68 @@ class Gen(object):
         env.set(name, {'ty': 'inst', 'cls': cls, 'nonempty': True, 'fresh': True})
         self.features.add('create')
         return name, [N('CreateObjectNode', variable_name=name, key_letter=cls)]
+
+    def bucket_churn(self, env):
+        """one A with several Bs across R1; one B (first / middle / most recent) is unrelated, another one related,
+        then the Bs are selected from the A and summed: membership, order and cardinality of a many-end that
+        shrank and grew again"""
+        t = self.t
+        out = []
+        a, pre = self.create(env, 'A')
+        out += pre
+        R = lambda x, y: N('RelateNode', from_variable_name=x, to_variable_name=y, rel_id='R1', phrase='') if t.flag() else \
+            N('RelateNode', from_variable_name=y, to_variable_name=x, rel_id='R1', phrase='')
+        bs = []
+        nval = {}
+        for i in range(2 + t.pick(3)):
+            b, pre = self.create(env, 'B')
+            bs.append(b)
+            nval[b] = str(2 ** i)
+            out += pre + [N('AssignmentNode', variable_access=N('FieldAccessNode', handle=self.var(b), name='n'),
+                            expression=N('IntegerNode', value=str(2 ** i))), R(b, a)]
+        for _ in range(1 + t.pick(2)):
+            j = [len(bs) - 1, 0, len(bs) // 2][t.pick(3)] if bs else None
+            if j is not None:
+                gone = bs.pop(j)
+                x, y = (gone, a) if t.flag() else (a, gone)
+                out.append(N('UnrelateNode', from_variable_name=x, to_variable_name=y, rel_id='R1', phrase=''))
+            if t.pick(4) != 0:
+                b, pre = self.create(env, 'B')
+                bs.append(b)
+                nval[b] = t.choice(['16', '32', '64'])
+                out += pre + [N('AssignmentNode', variable_access=N('FieldAccessNode', handle=self.var(b), name='n'),
+                                expression=N('IntegerNode', value=nval[b])), R(b, a)]
+        self.features.add('bucket-churn')
+        self.features.add('relate')
+        self.features.add('unrelate')
+        name = env.fresh('bs_')
+        out.append(N('SelectRelatedNode', cardinality='many', variable_name=name, handle=self.var(a),
+                     navigation_chain=N('NavigationListNode', children=[
+                         N('NavigationStepNode', key_letter='B', rel_id='R1', phrase='')])))
+        env.set(name, {'ty': 'set', 'cls': 'B', 'nonempty': False})
+        if env.get('acc') is not None:
+            A = lambda e: N('AssignmentNode', variable_access=self.var('acc'),
+                            expression=N('BinaryOperationNode', left=self.var('acc'), operator='+', right=e))
+            out.append(A(N('UnaryOperationNode', operator='cardinality', operand=self.var(name))))
+            ev = env.fresh('e')
+            out.append(N('ForEachNode', instance_variable_name=ev, set_variable_name=name,
+                         block=block([A(N('FieldAccessNode', handle=self.var(ev), name='n'))])))
+            if len(bs) >= 2:
+                # the where clause of a single-valued selection picks among ALL related instances, not just the first
+                target = bs[-1] if t.flag() else bs[len(bs) // 2]
+                one = env.fresh('b_')
+                out.append(N('SelectRelatedWhereNode', cardinality='any', variable_name=one, handle=self.var(a),
+                             navigation_chain=N('NavigationListNode', children=[
+                                 N('NavigationStepNode', key_letter='B', rel_id='R1', phrase='')]),
+                             where_clause=N('BinaryOperationNode', left=N('FieldAccessNode', handle=N('SelectedAccessNode'), name='n'),
+                                            operator='==', right=N('IntegerNode', value=nval[target]))))
+                env.set(one, {'ty': 'inst', 'cls': 'B', 'nonempty': False})
+                out.append(N('IfNode', expression=N('UnaryOperationNode', operator='not_empty', operand=self.var(one)),
+                             block=block([A(N('BinaryOperationNode', left=N('FieldAccessNode', handle=self.var(one), name='n'),
+                                               operator='*', right=N('IntegerNode', value='1000')))]),
+                             elif_list=N('ElIfListNode', children=[]), else_clause=None))
+                self.features.add('where')
+        return out
 
     def nonempty_insts(self, env, cls=None):
         return env.vars(lambda i: i['ty'] == 'inst' and i.get('nonempty') and (cls is None or i['cls'] == cls))
@@ -395,6 +465,8 @@ class Gen(object):
                 self.features.add('where')
             env.set(name, {'ty': 'set' if card == 'many' else 'inst', 'cls': cls, 'nonempty': False})
             return [node] + self.observe(env, name)
+        if k in (11, 12) and t.pick(4) == 0:
+            return self.bucket_churn(env)
         if k in (11, 12):        # relate (fresh instances keep the multiplicity rules satisfied)
             fc, tc, rel, ph = t.choice(RELATES)
             existing = self.nonempty_insts(env, tc)
@@ -405,7 +477,7 @@ class Gen(object):
                 b, p2 = self.create(env, tc)
             pre = p1 + p2
             self.features.add('relate')
-            if fc == 'L' and t.flag():
+            if fc == 'L' and t.pick(4) != 0:
                 # associative link in one statement
                 env.drop(a)
                 if p2:
@@ -417,7 +489,7 @@ class Gen(object):
                 self.features.add('relate-using')
                 out = p3 + p4 + p5 + [N('RelateUsingNode', from_variable_name=first, to_variable_name=second, rel_id='R4',
                                         phrase='', using_variable_name=l)]
-                if t.pick(3) == 0:
+                if t.flag():
                     f2, s2 = (first, second) if t.flag() else (second, first)
                     out.append(N('UnrelateUsingNode', from_variable_name=f2, to_variable_name=s2, rel_id='R4', phrase='',
                                  using_variable_name=l))
